@@ -22,6 +22,7 @@ import (
 
 	"github.com/influxdata/influxdb/v2/models"
 	"github.com/influxdata/influxdb/v2/tsdb"
+	"github.com/influxdata/influxdb/v2/tsdb/engine/tsm1"
 	"github.com/influxdata/influxql"
 
 	"verifharness/vkit"
@@ -97,6 +98,9 @@ type c40State struct {
 	ctr       int64
 	log       []string
 	ambiguous bool
+	stop      bool
+	// kinds of the values carried by stripped `time` fields of accepted points, per series
+	timeKinds map[string]map[byte]bool
 }
 
 var c40Kinds = []byte{'i', 'f', 's', 'b', 'u'}
@@ -166,7 +170,10 @@ func (c *c40State) genPoint() *c40Point {
 		tent := c.tentative[p.Meas][name]
 		switch {
 		case name == "time":
-			kind = vkit.Pick(rg, []byte{'i', 'f', 's', 'b', 'u'})
+			kind = 'i'
+			if rg.Chance(1, 8) {
+				kind = vkit.Pick(rg, c40Kinds)
+			}
 		case hasDef:
 			kind = def
 			if rg.Chance(1, 5) {
@@ -419,6 +426,16 @@ func (c *c40State) batch(bno int) {
 	if c.ambiguous {
 		c.r.Event("batches_left_open_by_statement", 1)
 	}
+	for _, p := range pts {
+		for _, f := range p.Fields {
+			if p.Reason == "" && f.Name == "time" {
+				if c.timeKinds[p.key()] == nil {
+					c.timeKinds[p.key()] = map[byte]bool{}
+				}
+				c.timeKinds[p.key()][f.V.K] = true
+			}
+		}
+	}
 	err := c.s.Write(mps)
 	// apply accepted points to the model, remember rejected values
 	for _, p := range pts {
@@ -468,7 +485,17 @@ func (c *c40State) batch(bno int) {
 		c.r.Event("dropped_counts_compared", 1)
 		switch {
 		case dropped < 0:
-			c.r.Violation("unexpected_write_error", map[string]string{"reasons": strings.Join(rs, "+")}, wit("WritePoints returned an error that is not a PartialWriteError"))
+			// name the trigger from the inputs alone: accepted points carried `time` fields of different types for one series
+			cause := "other"
+			for _, p := range pts {
+				if p.Reason == "" && len(c.timeKinds[p.key()]) > 1 {
+					cause = "stripped_time_fields_of_different_types"
+				}
+			}
+			c.r.Event("whole_batch_errors_"+cause, 1)
+			c.r.Violation("unexpected_write_error", map[string]string{"cause": cause, "error": strings.ReplaceAll(got, " ", "_")},
+				wit("WritePoints returned an error that is not a PartialWriteError: the whole batch fails although only some points (or only a `time` field) are invalid"))
+			c.stop = true // what the shard holds after a failed non-partial write is unspecified
 		case dropped != expected:
 			c.r.Violation("dropped_count_mismatch", map[string]string{"reasons": strings.Join(rs, "+")}, wit(fmt.Sprintf("PartialWriteError.Dropped=%d, classifier expects %d rejected points", dropped, expected)))
 		case expected > 0 && err == nil:
@@ -476,11 +503,32 @@ func (c *c40State) batch(bno int) {
 		}
 	}
 	c.resolve()
-	c.readBack(fmt.Sprintf("batch %d", bno), desc, expected, got)
+	if !c.stop {
+		c.readBack(fmt.Sprintf("batch %d", bno), desc, expected, got)
+		c.observeTimeField(pts)
+	}
 	c.log = append(c.log, fmt.Sprintf("batch %d: [%s] -> %s", bno, strings.Join(desc, " | "), got))
 	c.r.Case(fmt.Sprintf("%v|%s", c.validate, strings.Join(desc, "|")), expected > 0 && expected < len(pts))
 	if c.r.WantSample() && expected > 0 && expected < len(pts) && bno%5 == 2 && bigAt < 0 {
 		c.r.Sample(map[string]any{"case": c.caseNo, "batch": bno, "validate_keys": c.validate, "points": desc, "expected_dropped": expected, "returned": got})
+	}
+}
+
+// observeTimeField counts (does not judge) whether the value of a stripped `time` field reached the cache.
+func (c *c40State) observeTimeField(pts []*c40Point) {
+	for _, p := range pts {
+		if p.Reason != "" {
+			continue
+		}
+		for _, f := range p.Fields {
+			if f.Name == "time" {
+				if len(c.s.Eng().Cache.Values(tsm1.SeriesFieldKeyBytes(p.key(), "time"))) > 0 {
+					c.r.Event("observed_stripped_time_field_value_in_cache", 1)
+				} else {
+					c.r.Event("observed_stripped_time_field_not_in_cache", 1)
+				}
+			}
+		}
 	}
 }
 
@@ -564,7 +612,7 @@ func c40History(r *vkit.Run, caseNo, batches int) {
 	}
 	defer func() { s.Close() }()
 	c := &c40State{r: r, rg: rg, caseNo: caseNo, validate: validate, s: s, m: sk.NewModel(), schema: map[string]map[string]byte{},
-		tentative: map[string]map[string]map[byte]bool{}, universe: map[string]map[string]bool{}, rejected: map[string]string{}}
+		tentative: map[string]map[string]map[byte]bool{}, universe: map[string]map[string]bool{}, rejected: map[string]string{}, timeKinds: map[string]map[byte]bool{}}
 	if validate {
 		r.Event("histories_validate_keys_on", 1)
 	} else {
@@ -572,6 +620,9 @@ func c40History(r *vkit.Run, caseNo, batches int) {
 	}
 	for b := 0; b < batches; b++ {
 		c.batch(b)
+		if c.stop {
+			return
+		}
 		switch rg.Intn(10) {
 		case 0:
 			if err := s.Snapshot(); err != nil {
@@ -601,7 +652,7 @@ func TestC40(t *testing.T) {
 	r.Rule("case = one batch of 1–8 generated points (tag `time`, invalid UTF-8 in measurement/tag key/tag value, only-`time` field, `time` next to valid fields, no field at all, field type conflicting with the schema built by earlier batches or earlier points of the same batch, string field of exactly 1 MiB / 1 MiB+1 / larger) written to a real shard with key validation on or off; non-trivial = the batch mixes accepted and rejected points; distinct = hash of (validate, every point with values and verdict)")
 	r.Assume("schema = one type per (measurement, field)", "whether a rejected point registers its other, new fields in the schema is left open by the statement: resolved after the batch by looking at the shard's schema, and the generator does not build later points whose verdict would depend on it", "a stripped `time` field next to valid fields does not reject the point")
 	per := 10
-	n := r.N(50, 3000)
+	n := r.N(50, 1200)
 	for i := 0; i < n; i++ {
 		c40History(r, i, per)
 	}
